@@ -149,3 +149,42 @@ def effects_masks(e, var=None):
 
 def mask_names(m):
     return [n for i, n in enumerate(EFFECT_BITS) if m >> i & 1]
+
+
+def thin_unfold(facts, crate, call, depth=4):
+    """Follow thin wrappers: a call of a same-crate function whose body is exactly one call taking (some of) its own parameters
+    is the call of that inner function on the corresponding arguments.  Returns (ultimate callee path, [argument expressions])."""
+    import copy
+    import norm
+    call = hir.simp(call)
+    for _ in range(depth):
+        path = hir.callee(call)
+        if not path.startswith(crate + "::") and not path.startswith("<" + crate):
+            break
+        try:
+            b = facts.body(crate, path)
+        except Exception:
+            break
+        if "hir" not in b or len(b.get("params", [])) != len(call.get("args", [])):
+            break
+        try:
+            inner = single_expr(b["hir"])
+        except Unrecognised:
+            break
+        if not (isinstance(inner, dict) and inner.get("k") == "call" and not inner.get("ctor")):
+            break
+        pid = {p.get("id"): a for p, a in zip(b["params"], call["args"]) if p.get("k") == "pbind"}
+        ok = True
+        for a in inner["args"]:
+            a0 = hir.peel(a)
+            if not (a0.get("k") == "local" and a0.get("id") in pid):
+                ok = False
+        if not ok:
+            break
+
+        def sub(n):
+            if n.get("k") == "local" and n.get("id") in pid:
+                return copy.deepcopy(pid[n["id"]])
+            return n
+        call = norm.map_tree(copy.deepcopy(inner), sub)
+    return hir.callee(call), call.get("args", [])
